@@ -91,6 +91,13 @@ def scenarios(r, n, ctx):
                     extra.append({'overwrite': True, 'overwrite_part': False, 'rm_part_on_exc': True,
                                   'text_mode': text, 'file_perms': None, 'umask': 0o022, 'dest': dest,
                                   'part': 'absent', 'writes': body, 'flush': [], 'body_close': how})
+    # one saver object entered again (a retry loop around `with saver:`): every crash point of both attempts
+    for how in ('after-failure', 'after-success'):
+        for dest in ('absent', 'present'):
+            for body in ([5], [3, 4, 5]):
+                extra.append({'overwrite': True, 'overwrite_part': False, 'rm_part_on_exc': True,
+                              'text_mode': False, 'file_perms': None, 'umask': 0o022, 'dest': dest,
+                              'part': 'absent', 'writes': body, 'flush': [], 'reuse': how})
     return out, extra
 
 
@@ -182,7 +189,13 @@ def check_scenario_B(fu, scn, stats, viol):
         if a['part'] is not None or len(a['listing']) != 1:
             viol('normal-exit:part-file-left', 'listing after normal exit: %r' % a['listing'],
                  {'layer': 'B', 'scn': scn, 'crash_before': None})
-        ov = F.order_violations(log, res['dest'], res['part'], None)
+        olog = log
+        if scn.get('reuse'):
+            # one saver object entered twice: the ordering rules are those of one save and are applied to the second
+            # attempt (the first one is judged by the same rules in the scenarios without reuse)
+            last_open = max([i for i, e in enumerate(log) if e[0] == 'open'] or [0])
+            olog = log[last_open:]
+        ov = F.order_violations(olog, res['dest'], res['part'], None)
         stats.monitor_evals += 1
         stats.count('order_oracle_logs')
         for msg in ov:
@@ -235,9 +248,11 @@ def check_scenario_B(fu, scn, stats, viol):
         # whatever the save does next, the destination may only change through an atomic rename/link - so it is
         # old-or-complete at every crash point after the refusal and is never opened for writing
         pub = [i for i, ev in enumerate(log) if ev[0] in ('rename', 'link')]
-        for en in (_errno.EBUSY, _errno.EXDEV, _errno.EPERM, _errno.EIO):
+        for en in (_errno.EBUSY, _errno.EXDEV, _errno.EPERM, _errno.EIO, _errno.ENOTSUP, _errno.ENOSYS, _errno.EMLINK):
             if not pub:
                 break
+            if en in (_errno.ENOTSUP, _errno.ENOSYS, _errno.EMLINK) and log[pub[0]][0] != 'link':
+                continue        # "no hard links here" answers belong to link()
             dp = os.path.join(base, 'p%d' % en)
             os.mkdir(dp)
             rp = F.run_in_process(fu, scn, dp, faults={pub[0]: en})
@@ -285,7 +300,8 @@ def check_scenario_B(fu, scn, stats, viol):
                 stats.count('fsync-refused:' + _errno.errorcode[en])
                 pub_after = [e for e in rs['log'][k + 1:] if e[0] in ('rename', 'link') and e[-1] == 'done']
                 a = rs['after']['dest']
-                if pub_after or (a is not None and a['bytes'] == want and
+                earlier = [e for e in rs['log'][:k] if e[0] in ('rename', 'link') and e[-1] == 'done']
+                if pub_after or (not earlier and a is not None and a['bytes'] == want and
                                  (rs['before']['dest'] is None or rs['before']['dest']['bytes'] != want)):
                     viol('published-after-failed-fsync:' + _errno.errorcode[en],
                          'fsync of the part file failed with %s, yet the new content was published (save %s)'
